@@ -1,6 +1,6 @@
 #!/usr/bin/env python3
 """write /verif/seeded/<name>/meta.json and regenerate /verif/seeded/README.md
-usage: seed_meta.py <name> <property> "<what it needs to manifest>" ["<note on check changes>"]
+usage: seed_meta.py <name> <property> "<what it needs to manifest>" ["<note on check changes>" ["<superseded: why>"]]
        seed_meta.py --readme"""
 import glob
 import json
@@ -48,7 +48,7 @@ def readme():
                 '| name | property | file changed | caught by quick check | violation signatures | first result / what was strengthened |\n'
                 '|---|---|---|---|---|---|\n')
         for m in rows:
-            f.write(f"| {m['name']} | {m['property']} | {', '.join(m['files'])} | {'yes' if m['check']['caught'] else 'NO'} | "
+            f.write(f"| {m['name']} | {m['property']} | {', '.join(m['files'])} | {('n/a: ' + m['superseded']) if m.get('superseded') else 'yes' if m['check']['caught'] else 'NO'} | "
                     f"{'; '.join(m['check']['violations'][:4])} | {m.get('note', '')} |\n")
         f.write('\n## What each change needs to manifest\n\n')
         for m in rows:
@@ -61,6 +61,7 @@ def main():
         return
     name, prop, needs = sys.argv[1:4]
     note = sys.argv[4] if len(sys.argv) > 4 else ''
+    superseded = sys.argv[5] if len(sys.argv) > 5 else None     # the change no longer breaks the property (why)
     d = os.path.join(ROOT, name)
     patch = open(os.path.join(d, 'patch.diff')).read()
     files = re.findall(r'^\+\+\+ b/(\S+)', patch, re.M)
@@ -80,6 +81,8 @@ def main():
         'check': result_of(d),
         'note': note,
     }
+    if superseded:
+        meta['superseded'] = superseded
     with open(os.path.join(d, 'meta.json'), 'w') as f:
         json.dump(meta, f, indent=1)
         f.write('\n')
